@@ -15,6 +15,9 @@ impl<'a> Tr<'a> {
     }
 
     pub fn apply_fn_raw(&mut self, f: &FnInfo, cg: &[Val], recv: Option<&Val>, args: &[&Expr], env: &Env, at: &Expr) -> R<(String, Ty)> {
+        if !f.assoc_params.is_empty() {
+            return Err(unsupported(at, &format!("call of `{}`, whose generic parameters' associated constants are abstracted as parameters", f.key)));
+        }
         if cg.len() != f.const_generics.len() {
             return Err(unsupported(at, &format!("call of `{}` needs {} const generic argument(s) written with a turbofish", f.key, f.const_generics.len())));
         }
@@ -98,6 +101,21 @@ impl<'a> Tr<'a> {
                 let v = self.pure(args[0], env, ih.as_ref())?;
                 return Ok(Val { s: format!("(Some {})", v.s), ty: Ty::Option(Box::new(v.ty)) });
             }
+            if let Some(v) = env.get(n) {
+                if let Ty::Fn(ptys, rty) = &v.ty {
+                    if ptys.len() != args.len() {
+                        return Err(unsupported(at, "closure call arity"));
+                    }
+                    let mut a = vec![];
+                    for (x, pt) in args.iter().zip(ptys.iter()) {
+                        let av = self.pure(x, env, Some(pt))?;
+                        join(&av.ty, pt).map_err(|m| unsupported(at, &m))?;
+                        a.push(av.s);
+                    }
+                    return Ok(Val { s: app(&v.coq, &a), ty: (**rty).clone() });
+                }
+                return Err(unsupported(at, &format!("call of local `{}` which is not a closure", n)));
+            }
             let fs = self.find_fns(None, n);
             if fs.len() == 1 {
                 let cg = self.turbofish_consts(last, env, Some(&fs[0]))?;
@@ -140,6 +158,14 @@ impl<'a> Tr<'a> {
             return Err(unsupported(at, &format!("`{}::{}`", tname, fname)));
         }
         let tn = if tname == "Self" { self.self_ty.clone().unwrap_or_default() } else { tname.to_string() };
+        if !self.t.adts.contains_key(&tn) && !self.t.externs.contains_key(&tn) && tname.chars().next().map(|c| c.is_lowercase()).unwrap_or(false) {
+            // `module::function(..)`
+            let fs = self.find_fns(None, fname);
+            if fs.len() == 1 {
+                let cg = self.turbofish_consts(last, env, Some(&fs[0]))?;
+                return self.apply_fn(&fs[0], &cg, None, &args, env, at);
+            }
+        }
         // enum tuple variant constructor
         if let Some(e) = self.t.enum_info(&tn) {
             if let Some(v) = e.variants.iter().find(|v| v.name == fname) {
@@ -232,6 +258,13 @@ impl<'a> Tr<'a> {
                 Err(unsupported(at, &format!("method `{}::{}`: {} (add it to functions.txt before its caller)", n, name, if fs.is_empty() { "not a configured function" } else { "ambiguous" })))
             }
             Ty::Option(inner) => self.option_method(&name, recv, &inner, &args, env, hint, at),
+            Ty::Extern(n) => {
+                let e = self.t.externs.get(&n).cloned().ok_or_else(|| unsupported(at, "unknown extern type"))?;
+                match e.methods.iter().find(|m| m.0 == name) {
+                    Some((_, ty, f)) if args.is_empty() => Ok(Val { s: format!("({} {})", f, recv.s), ty: ty.clone() }),
+                    _ => Err(unsupported(at, &format!("method `{}` on extern type `{}` (not listed in its `extern` line)", name, n))),
+                }
+            }
             Ty::Range(t) | Ty::RangeIncl(t) => {
                 let incl = matches!(recv.ty, Ty::RangeIncl(_));
                 match (name.as_str(), args.len()) {
@@ -290,6 +323,10 @@ impl<'a> Tr<'a> {
                 let a = arg(self, 0, &same)?;
                 Ok(Val { s: format!("(Z.abs ({} - {}))", recv.s, a.s), ty: Ty::int(need("abs_diff")?.unsigned_counterpart()) })
             }
+            ("cmp", 1) => {
+                let a = arg(self, 0, &same)?;
+                Ok(Val { s: format!("(Z.compare {} {})", recv.s, a.s), ty: Ty::Adt("Ordering".into()) })
+            }
             ("signum", 0) => Ok(Val { s: format!("(Z.sgn {})", recv.s), ty: same }),
             ("is_positive", 0) => Ok(Val { s: format!("(0 <? {})", recv.s), ty: Ty::Bool }),
             ("is_negative", 0) => Ok(Val { s: format!("({} <? 0)", recv.s), ty: Ty::Bool }),
@@ -301,7 +338,8 @@ impl<'a> Tr<'a> {
                 let ty = need(name)?;
                 let a = arg(self, 0, &same)?;
                 let op = &name["saturating_".len()..];
-                Ok(Val { s: format!("(sat_{}_{} {} {})", op, ty.name(), recv.s, a.s), ty: same })
+                let q = if matches!((op, ty), ("add", IntTy::U32) | ("sub", IntTy::U32) | ("add", IntTy::I32)) { "Prelude" } else { "Casts" };
+                Ok(Val { s: format!("({}.sat_{}_{} {} {})", q, op, ty.name(), recv.s, a.s), ty: same })
             }
             ("wrapping_add", 1) | ("wrapping_sub", 1) | ("wrapping_mul", 1) => {
                 let ty = need(name)?;
@@ -311,7 +349,7 @@ impl<'a> Tr<'a> {
                     "sub" => "-",
                     _ => "*",
                 };
-                Ok(Val { s: format!("(wrap_{} ({} {} {}))", ty.name(), recv.s, op, a.s), ty: same })
+                Ok(Val { s: format!("(Casts.wrap_{} ({} {} {}))", ty.name(), recv.s, op, a.s), ty: same })
             }
             ("checked_add", 1) | ("checked_sub", 1) | ("checked_mul", 1) => {
                 let ty = need(name)?;
@@ -321,7 +359,7 @@ impl<'a> Tr<'a> {
                     "sub" => "-",
                     _ => "*",
                 };
-                Ok(Val { s: format!("(checked_{} ({} {} {}))", ty.name(), recv.s, op, a.s), ty: Ty::Option(Box::new(same)) })
+                Ok(Val { s: format!("(Casts.checked_{} ({} {} {}))", ty.name(), recv.s, op, a.s), ty: Ty::Option(Box::new(same)) })
             }
             ("rem_euclid", 1) => {
                 let a = arg(self, 0, &same)?;
@@ -329,7 +367,7 @@ impl<'a> Tr<'a> {
             }
             ("div_euclid", 1) => {
                 let a = arg(self, 0, &same)?;
-                Ok(Val { s: format!("(div_euclid {} {})", recv.s, a.s), ty: same })
+                Ok(Val { s: format!("(Casts.div_euclid {} {})", recv.s, a.s), ty: same })
             }
             ("saturating_as", 0) => {
                 let from = need("saturating_as")?;
@@ -348,10 +386,10 @@ impl<'a> Tr<'a> {
                     _ => return Err(unsupported(at, "saturating_as to a non-integer")),
                 };
                 let s = match (from, to_i) {
-                    (IntTy::U32, IntTy::I32) => format!("(sat_u32_to_i32 {})", recv.s),
-                    (IntTy::I32, IntTy::U32) => format!("(sat_i32_to_u32 {})", recv.s),
+                    (IntTy::U32, IntTy::I32) => format!("(Prelude.sat_u32_to_i32 {})", recv.s),
+                    (IntTy::I32, IntTy::U32) => format!("(Prelude.sat_i32_to_u32 {})", recv.s),
                     (f, t) if f == t => recv.s.clone(),
-                    (_, t) => format!("(sat_as_{} {})", t.name(), recv.s),
+                    (_, t) => format!("(Casts.sat_as_{} {})", t.name(), recv.s),
                 };
                 Ok(Val { s, ty: to })
             }
@@ -409,7 +447,8 @@ impl<'a> Tr<'a> {
             }
             ("filter", 1) => {
                 let (p, b) = self.closure1(args[0], inner, env, Some(&Ty::Bool))?;
-                Ok(Val { s: format!("(match {r} with | Some {p} => if {b} then {r} else None | None => None end)", r = recv.s, p = p, b = b.s), ty: recv.ty.clone() })
+                let keep = if p == "_" { recv.s.clone() } else { format!("Some {}", p) };
+                Ok(Val { s: format!("(match {r} with | Some {p} => if {b} then {k} else None | None => None end)", r = recv.s, p = p, b = b.s, k = keep), ty: recv.ty.clone() })
             }
             ("copied", 0) | ("cloned", 0) | ("clone", 0) => Ok(recv),
             _ => Err(unsupported(at, &format!("Option method `{}` (not in the whitelist; unwrap/expect panic and are not translated)", name))),
